@@ -50,6 +50,14 @@ def main() -> int:
             print(("REPLAY reproduces the failure" if not ok else "REPLAY passes") + f" property={pid}", flush=True)
             return 0 if ok else 1
         mod.run(ctx)
+        if args.tier == "thorough":
+            # independent re-check of the compiled property module (and everything it imports from this project)
+            import subprocess
+            try:
+                r = subprocess.run(["lake", "env", "leanchecker", mod.LEAN_MODULE], cwd=common.LEAN, capture_output=True, text=True, timeout=1800)
+                ctx.obligation("leanchecker " + mod.LEAN_MODULE, r.returncode == 0, kind="leanchecker", detail=(r.stdout + r.stderr)[-300:])
+            except subprocess.TimeoutExpired:
+                ctx.stats["leanchecker"] = "timeout (not a verdict)"
         if not audit["ok"]:
             # a registered theorem no longer checks (or uses a forbidden axiom/token): the property is no
             # longer shown to hold. If run() found no concrete failing input, say so.
